@@ -43,7 +43,7 @@ TRUSTED_EXTRA = ["harness/sorted_common.py: scenario generator, TestingInterface
                  "numpy semantics of np.arange / np.minimum / boolean-mask assignment / np.linalg.norm as modelled in Model/Preproc.v and Model/Sorted.v"]
 
 COMBOS = [(a, s, e, u, i) for a in ("greedy", "rr") for s in sc.SORTS for e in (False, True) for u in (False, True)
-          for i in ((0.1, 0.5, 1.0) if a == "rr" else (0.5,))]
+          for i in ((0.1, 0.5, 1.0) if a == "rr" else (0.5, 0.5, 0.5))]      # greedy and round robin equally often
 CORPUS = os.path.join(core.ROOT, "corpus", "C07")
 
 
